@@ -48,6 +48,8 @@ def c10_reference(n, arcs):
         for sub, nodes in ((g.get_ancestral_graph(N[x]), anc | {x}), (g.get_descendant_graph(N[x]), reach[x] | {x})):
             if {ix[v] for v in sub.get_node_names()} != nodes or {(ix[a], ix[b]) for a, b in sub.get_edge_pairs()} != {(a, b) for a, b in arcs if a in nodes and b in nodes}:
                 return f'ancestral / descendant sub-graph of {N[x]!r} is not the induced sub-graph'
+            if not D.attrs_kept(sub, g):
+                return f'a node of the ancestral / descendant sub-graph of {N[x]!r} lost its variable type or metadata'
         for sub, star in ((g.get_parents_graph(N[x]), {(a, b) for a, b in arcs if b == x}), (g.get_children_graph(N[x]), {(a, b) for a, b in arcs if a == x})):
             if {(ix[a], ix[b]) for a, b in sub.get_edge_pairs()} != star or {ix[v] for v in sub.get_node_names()} != {x} | {v for e in star for v in e}:
                 return f'parents / children graph of {N[x]!r} is not the star of its directed edges'
